@@ -11,6 +11,8 @@ def run(chk):
     danglink.run(chk)
     from lib import forwarders
     forwarders.run(chk)
+    from lib import assignempty
+    assignempty.run(chk)
     return chk.finish(
         level="other",
         explanation=("Decides one structural clause of C18 on /repo's current source: in String::_op_vformat() and Arena::sformat() the value "
